@@ -4,7 +4,7 @@ From Coq Require Import List Arith Lia Bool String NArith ListDec.
 From GQL Require Import Exec.Syntax Validate.VSyntax Validate.Overlap Validate.OverlapSpec Validate.Rules Validate.All
      Validate.OverlapWf
      Proofs.ValidateRules Proofs.ValidateInputFields Proofs.ValidateCycles Proofs.ValidateCyclesComplete Proofs.ValidateUnused Proofs.ValidateMemo
-     Proofs.ValidateMemoHard Proofs.ValidateWf Proofs.ValidateWfDoc Proofs.ValidateDecide.
+     Proofs.ValidateMemoHard Proofs.ValidateWf Proofs.ValidateWfDoc Proofs.ValidateDecide Proofs.ValidateClosure.
 Import ListNotations.
 Open Scope N_scope.
 
@@ -55,8 +55,6 @@ Qed.
 
 (* The remaining hypotheses are decidable and hold for every parsed document over a schema
    the library accepts (the runner checks them on every case):
-   - closures_stable: the closure iteration of the model of RecursivelyReferencedFragments
-     did not fall short;
    - ids_ok: node ids (byte offsets) of selections are distinct and non-zero;
    - meta_ok: the schema does not redefine __typename / the type String as composite;
    - the fuel of the overlap model is at least fuel_of (erase W).
@@ -64,13 +62,12 @@ Qed.
    NoFragmentCycles DFS and by the overlap rule -- are obtained from the verdicts of
    UniqueFragmentNames, NoFragmentCycles and UniqueArgumentNames themselves. *)
 Theorem accept_iff : forall fuel S W,
-  closures_stable W = true ->
   ids_ok (erase W) = true ->
   meta_ok S = true ->
   (fuel_of (erase W) <= fuel)%nat ->
   (validate_model fuel S W = [] <-> forall r, ~ Violates r S W).
 Proof.
-  intros fuel S W Hst Hids Hmeta Hfuel. unfold validate_model. rewrite flat_map_nil.
+  intros fuel S W Hids Hmeta Hfuel. pose proof (closures_stable_always W) as Hst. unfold validate_model. rewrite flat_map_nil.
   assert (R : forall r, In r all_rules -> r <> 9 -> r <> 13 -> (run_rule_f fuel r S W = [] <-> ~ Violates r S W)).
   { intros r Hr N9 N13. unfold all_rules in Hr. simpl in Hr.
     repeat (destruct Hr as [Hr|Hr]; [subst r; simpl|]); try destruct Hr; try (exfalso; apply N9; reflexivity); try (exfalso; apply N13; reflexivity).
